@@ -262,3 +262,48 @@ Definition tbl_wf (T : table) : bool :=
   is_some (find_chain bOUTPUT T) && is_some (find_chain bPREROUTING T).
 Definition kst_wf (s : kstate) : bool :=
   tbl_wf (k_v6nat s) && tbl_wf (k_v6mangle s) && tbl_wf (k_v4nat s) && tbl_wf (k_v4mangle s).
+
+(* ------------------------------------------------------------------ *)
+(* 6. nat with --user/--group: the own objects of one family are those of
+   section 2 in the nat table PLUS the owner MARK rules the helper put at the
+   head of OUTPUT in the mangle table (nat.py:39-44 / 105-110); both the
+   insertion and the deletion are nonfatal *)
+
+Inductive ocmd := OI (c : icmd) | OMark | OUnmark.
+
+Definition ostate := (astate * nat)%type.      (* own nat-table objects, number of own MARK rules *)
+
+Definition oexec (sp : ispec) (c : ocmd) (st : ostate) : option ostate :=
+  match c with
+  | OI c' => match iexec sp c' (fst st) with Some a' => Some (a', snd st) | None => None end
+  | OMark => Some (fst st, S (snd st))
+  | OUnmark => match snd st with S j => Some (fst st, j) | O => None end
+  end.
+Definition otest (x : slot) (st : ostate) : bool := itest x (fst st).
+Definition oconc (sp : ispec) (M : rule) (c : ocmd) : cmd :=
+  match c with
+  | OI c' => iconc sp c'
+  | OMark => Ipt (is_fam sp) TMangle (IInsert bOUTPUT M)
+  | OUnmark => Ipt (is_fam sp) TMangle (IDelete bOUTPUT M)
+  end.
+
+Definition oprog := list (astep ocmd slot).
+Definition orun (sp : ispec) (M : rule) : faultfn -> oprog -> nat -> ostate -> ares ostate :=
+  arun ostate ocmd slot (oexec sp) otest (oconc sp M) (fun _ => is_fam sp) (fun _ => is_tbl sp).
+Definition ocomp (sp : ispec) (M : rule) : astep ocmd slot -> step :=
+  comp ocmd slot (oconc sp M) (fun _ => is_fam sp) (fun _ => is_tbl sp) (is_nm sp).
+
+Definition a_nato_restore : oprog :=
+  [AIf S0 [ATry OUnmark; ATry (OI (CUnhook true)); ATry (OI (CUnhook false));
+           ATry (OI (CFlush S0)); ADo (OI (CDel S0))]].
+Definition a_nato_setup (rs : list rule) : oprog :=
+  a_nato_restore ++
+  map ASimple ([ADo (OI (CNew S0)); ADo (OI (CFlush S0)); ATry OMark;
+                ADo (OI (CHook true)); ADo (OI (CHook false))] ++
+               map (fun r => ADo (OI (CApp S0 r))) rs).
+Definition o_clean : ostate := (a_clean, 0).
+Definition o_full (rs : list rule) : ostate := (a_nat_full rs, 1).
+
+(* the tear-down command whose failure is finding F41 *)
+Definition is_mark_delete (x : cmd) : bool :=
+  match x with Ipt _ TMangle (IDelete _ _) => true | _ => false end.
